@@ -208,9 +208,11 @@ type Party struct {
 	ID     int
 	KMS    *localkms.LocalKMS
 	Crypto *tinkcrypto.Crypto
-	w      *World
-	pk     map[string]*packager.Packager
-	pp     map[string]packer.Packer
+	// Rec is the crypto service handed to the packers: the real one, recording every WrapKey call
+	Rec *RecCrypto
+	w   *World
+	pk  map[string]*packager.Packager
+	pp  map[string]packer.Packer
 }
 
 // World is the set of parties and the public directory.
@@ -252,7 +254,7 @@ func (w *World) AddParty() *Party {
 		panic(err)
 	}
 
-	pa := &Party{ID: len(w.Parties), KMS: k, Crypto: c, w: w, pk: map[string]*packager.Packager{}, pp: map[string]packer.Packer{}}
+	pa := &Party{ID: len(w.Parties), KMS: k, Crypto: c, Rec: &RecCrypto{Crypto: c}, w: w, pk: map[string]*packager.Packager{}, pp: map[string]packer.Packer{}}
 	w.Parties = append(w.Parties, pa)
 
 	return pa
@@ -433,7 +435,7 @@ func (w *World) resolve(id string, _ ...vdrspi.DIDMethodOption) (*did.DocResolut
 }
 
 func (p *Party) provider() *mockprovider.Provider {
-	return &mockprovider.Provider{KMSValue: p.KMS, CryptoValue: p.Crypto, VDRegistryValue: p.w.VDR}
+	return &mockprovider.Provider{KMSValue: p.KMS, CryptoValue: p.Rec, VDRegistryValue: p.w.VDR}
 }
 
 // Packer returns the party's packer of the kind ("jwe-auth", "jwe-anon", "leg-auth", "leg-anon").
@@ -602,4 +604,40 @@ func Fence(f func() Unpacked) (u Unpacked) {
 	}()
 
 	return f()
+}
+
+// WrapCall is one recorded Crypto.WrapKey call: its arguments and options and the ephemeral key of its result.
+type WrapCall struct {
+	APU, APV, Tag []byte
+	HasSender     bool
+	EPKGiven      bool
+	Alg           string
+	EPKX          []byte
+}
+
+// RecCrypto wraps the real crypto service and records the key-wrap calls of the packers.
+type RecCrypto struct {
+	cryptoapi.Crypto
+	Wraps []WrapCall
+}
+
+// WrapKey records and forwards.
+func (r *RecCrypto) WrapKey(cek, apu, apv []byte, recPubKey *cryptoapi.PublicKey,
+	opts ...cryptoapi.WrapKeyOpts) (*cryptoapi.RecipientWrappedKey, error) {
+	o := cryptoapi.NewOpt()
+	for _, f := range opts {
+		f(o)
+	}
+
+	wk, err := r.Crypto.WrapKey(cek, apu, apv, recPubKey, opts...)
+
+	c := WrapCall{APU: append([]byte{}, apu...), APV: append([]byte{}, apv...), Tag: append([]byte{}, o.Tag()...),
+		HasSender: o.SenderKey() != nil, EPKGiven: o.EPK() != nil}
+	if err == nil {
+		c.Alg, c.EPKX = wk.Alg, append([]byte{}, wk.EPK.X...)
+	}
+
+	r.Wraps = append(r.Wraps, c)
+
+	return wk, err
 }
